@@ -308,6 +308,32 @@ def c_signatures_over_partial_message(world, pid, rng):
     return finish(world, pid, [ref.RTx(ins, outs)], rng), {"badsig"}, set()
 
 
+def c_lifted_from_validated_transaction(world, pid, rng):
+    """the signatures of a transaction the node has already validated and stored (in block X) are reused on a sibling of X
+    with the outputs redirected: the references are still unspent at X's parent, only the signed content differs.
+    (pid is ignored: the parent is X's parent)"""
+    blocks = [b for b in world.chain.order[1:] if len(world.chain.blocks[b].txs) > 1]
+    rng.shuffle(blocks)
+    for x in blocks:
+        xb = world.chain.blocks[x]
+        led = world.ledger(xb.prev)
+        for t in xb.txs[1:]:
+            if not all(r in led for r in t.refs()):
+                continue
+            other = [kk for _s, kk in world.keys if kk != t.outputs[0][1]]
+            mode = rng.randrange(3)
+            if mode == 0:
+                outs = [(t.outputs[0][0], rng.choice(other))] + list(t.outputs[1:])
+            elif mode == 1 and t.outputs[0][0] > 1:
+                outs = [(t.outputs[0][0] - 1, t.outputs[0][1])] + list(t.outputs[1:])
+            else:
+                outs = list(t.outputs) + [(0, rng.choice(other))][:0] + ([(1, rng.choice(other))] if ref.tx_fee(t, led) >= 1 else [])
+                if outs == list(t.outputs):
+                    outs = [(t.outputs[0][0], rng.choice(other))] + list(t.outputs[1:])
+            return finish(world, xb.prev, [ref.RTx(t.inputs, outs)], rng), {"badsig"}, set()
+    return None
+
+
 def c_mangled_signature(world, pid, rng):
     t = world.make_rtx(pid, rng, max_in=2)
     if t is None:
@@ -354,6 +380,7 @@ C01_CLASSES = {
     "k-mangled-signature": c_mangled_signature, "l-output-locked-to-non-point": c_output_locked_to_non_point,
     "m-signature-copied-within-transaction": c_signature_copied_within_transaction,
     "n-signatures-over-partial-message": c_signatures_over_partial_message,
+    "o-lifted-from-validated-transaction": c_lifted_from_validated_transaction,
 }
 
 
